@@ -252,6 +252,8 @@ func (ft *fnTrans) run() {
 
 func (ft *fnTrans) collectNames() {
 	order := 0
+	pendingLit := ""
+	var pendingTy types.Type
 	for _, b := range ft.fn.Blocks {
 		for _, ins := range b.Instrs {
 			order++
@@ -259,6 +261,15 @@ func (ft *fnTrans) collectNames() {
 			case *ssa.DebugRef:
 				if id, ok := x.Expr.(*ast.Ident); ok && !x.IsAddr {
 					ft.names[id.Name] = append(ft.names[id.Name], nameDef{x.X, b, order})
+					// `v := T{...}` of map/slice type: go/ssa records the declaration as `v is nil` and the
+					// literal separately; the literal's value is what v denotes from here on
+					pendingLit = ""
+					if c, isConst := x.X.(*ssa.Const); isConst && c.Value == nil {
+						pendingLit, pendingTy = id.Name, c.Type()
+					}
+				} else if _, isLit := x.Expr.(*ast.CompositeLit); isLit && pendingLit != "" && !x.IsAddr && types.Identical(x.X.Type(), pendingTy) {
+					ft.names[pendingLit] = append(ft.names[pendingLit], nameDef{x.X, b, order})
+					pendingLit = ""
 				}
 			case *ssa.Phi:
 				if x.Comment != "" {
@@ -760,6 +771,16 @@ func evalModItem(vc *VC, env *Env, m Clause) []modItem {
 			}
 		}
 		fail("no such field")
+	}
+	// a package-level variable of the contract's package
+	if id, ok := e.(*ast.Ident); ok && env.pkg != nil {
+		if _, isVar := env.pkg.Scope().Lookup(id.Name).(*types.Var); isVar {
+			if sp := vc.P.ssaProg.Package(env.pkg); sp != nil {
+				if g, ok := sp.Members[id.Name].(*ssa.Global); ok {
+					return []modItem{{comp: vc.compGlobal(g), src: m.Src}}
+				}
+			}
+		}
 	}
 	// whole object
 	v, err := env.Expr(e)
